@@ -39,6 +39,9 @@ add("C19", "Theorems about the hand-written model Traits.v (Eq/Ord/PartialOrd/Ha
     "Model hand-written; the content of the property is mostly in the tie (that the impls delegate to as_ref). The payload's own Ord/Hash laws are premises.",
     "Coq proof over hand-written model + exhaustive-family differential check")
 
+add("C06", "Partial. Proved (Coq, chains of every length, by induction over the chain, for every state in which the chain is embedded): a cascade started on the head of a chain whose node stamps and link timestamps are at least RECLAIM_AGE epochs old destructs, drops and frees all nodes (up to DEPTH_CAP of them) in ONE pass - no epoch advance, nothing deferred, at most 12 model steps per node - leaving every other object and thread untouched (C06_cascade_full); a node with a second owner survives with its count decremented, its links intact and everything behind it untouched (C06_cascade_survivor); node DEPTH_CAP+1 is left with count 0, not destructed, and exactly one new pending try_destruct (C06_cascade_cap); a recent link timestamp defers instead (example). The reclaim test and the merged stamp are the generated images of the expressions in src/utils.rs. Not a theorem: the number of passes of a chain longer than DEPTH_CAP (each deferral costs a grace period, and the 4-bit stamp window periodically makes old stamps look recent); that is decided by comparing the real pass sizes of real chains (lengths 1..5000, all 16 epoch residues, with and without an externally held node) with the model's prediction (RcChain.v through Rc.micro) and by a monitor bounding the epoch advances between the drop and the last destructor by 16*(n/1024)+24 (chains up to 10^6 nodes in the thorough tier).",
+    "Model hand-written; tie sampled. Chains only in the theorem; trees/diamonds in the rc stream. The grace-period bound is measured, not proved.",
+    "Coq proof (induction over the chain, footprint lemmas) over hand-written model + differential correspondence of pass sizes + latency monitor")
 add("C07", "Partial. Proved (Coq, all programs, schedules and oracles, no bound on structure size): in the model Rc.v the continuation stack of every thread holds dispose_general_node frames whose depth arguments strictly decrease down the stack and lie in [0, DEPTH_CAP]; at most DEPTH_CAP invocations are past their depth test and at most one more has been entered; an invocation entered at DEPTH_CAP defers its object and returns; try_destruct frames only ever sit on dispose-free stacks (so deferral really unwinds). DEPTH_CAP = 1024 is regenerated from src/utils.rs on every run and pinned by a theorem. Tied to the code by the chain stream (pass sizes of real chain destructions, incl. the 1024-node segments produced by the cap, predicted exactly by running Rc.micro on the same chain: RcChain.v) and the rc stream (trees/diamonds). What a theorem cannot carry - bytes per invocation versus the stack a thread has - is decided by stack probes: chains of up to 10^6 nodes destroyed on threads with 256 KiB..8 MiB stacks in child processes, all nodes reclaimed. Known finding D10: stacks of 128 KiB or less overflow (reported as KNOWN-FINDING).",
     "Model hand-written; tie sampled. The runtime half (frame size x depth <= stack) is tested, not proved. The payload's own Drop is assumed not to recurse.",
     "Coq proof (inductive invariant on the continuation stack) + schedule-driven/differential correspondence + stack probes")
@@ -64,7 +67,6 @@ PENDING = {
     "C03": "model M3 under construction; not yet registered",
     "C04": "model M3 under construction; not yet registered",
     "C05": "model M3 under construction; not yet registered",
-    "C06": "needs M3 with links; not yet registered",
     "C10": "model M3 under construction; not yet registered",
     "C15": "model M2 (Ebr.v) exists; proofs under construction",
     "C16": "sequential guard model under construction",
